@@ -227,6 +227,34 @@ def r_bytesio_whole(bs, cls, bits, ctx):
     return getattr(bs, cls)(io.BytesIO(to_bytes(bits)))
 
 
+@route('bytesio_reused', "(lambda f: (bitstring.Bits(f), bitstring.{cls}(f))[1])(__import__('io').BytesIO({by!r}))")
+def r_bytesio_reused(bs, cls, bits, ctx):
+    """the same BytesIO object used for a second bitstring: its cursor position must play no part"""
+    if len(bits) % 8:
+        return None
+    f = io.BytesIO(to_bytes(bits))
+    bs.Bits(f)
+    return getattr(bs, cls)(f)
+
+
+@route('bytesio_written', "(lambda f: (f.write({by!r}), bitstring.{cls}(f))[1])(__import__('io').BytesIO())")
+def r_bytesio_written(bs, cls, bits, ctx):
+    """a BytesIO filled by write(): the cursor is at the end"""
+    if len(bits) % 8:
+        return None
+    f = io.BytesIO()
+    f.write(to_bytes(bits))
+    return getattr(bs, cls)(f)
+
+
+@route('bytesio_window_after_read', "(lambda f: (f.read(1), bitstring.{cls}(f, offset=3, length={n}))[1])(__import__('io').BytesIO({emb3!r}))")
+def r_bytesio_window_after_read(bs, cls, bits, ctx):
+    p, o, n = embed(bits, 3)
+    f = io.BytesIO(p)
+    f.read(1)
+    return getattr(bs, cls)(f, offset=o, length=n)
+
+
 @route('slice', "bitstring.{cls}(bin={bits5!r})[2:{n}+2]")
 def r_slice(bs, cls, bits, ctx):
     return getattr(bs, cls)(bin='10' + bits + '011')[2:len(bits) + 2]
